@@ -259,7 +259,7 @@ func fillAllTransitions(forward *NFA, builder *Builder, reverseEdges map[StateID
 		edges := reverseEdges[fwdID]
 
 		if isStart && hasIncoming {
-			fillStartStateWithIncoming(builder, revID, edges, revStateMap, matchID)
+			fillStartStateWithIncoming(builder, revID, edges, revStateMap, matchID, fwdID == fwdAnchored)
 		} else {
 			fillReverseState(builder, revID, edges, revStateMap)
 		}
@@ -402,7 +402,7 @@ func fillReverseState(builder *Builder, revID StateID, edges []reverseEdge, revS
 
 // fillStartStateWithIncoming handles forward start states that have incoming edges (loops)
 // The proxy state is already an epsilon -> match, but we need to add the loop transitions
-func fillStartStateWithIncoming(builder *Builder, proxyID StateID, edges []reverseEdge, revStateMap map[StateID]StateID, matchID StateID) {
+func fillStartStateWithIncoming(builder *Builder, proxyID StateID, edges []reverseEdge, revStateMap map[StateID]StateID, matchID StateID, keepBytes bool) {
 	// The proxy is currently epsilon -> match
 	// If we have incoming edges (from loops), we need to create a split:
 	// proxyID: split -> (transitions from incoming edges), match
@@ -411,6 +411,12 @@ func fillStartStateWithIncoming(builder *Builder, proxyID StateID, edges []rever
 	var loopTargets []StateID
 	for _, edge := range edges {
 		if revTarget, ok := revStateMap[edge.from]; ok {
+			if keepBytes && edge.kind != edgeEpsilon {
+				// A byte-consuming edge into the anchored start state (e.g. the
+				// loop of `a*b`) must consume the same byte range in the reverse
+				// NFA. The unanchored prefix loop keeps its epsilon treatment.
+				revTarget = builder.AddByteRange(edge.lo, edge.hi, revTarget)
+			}
 			loopTargets = append(loopTargets, revTarget)
 		}
 	}
